@@ -775,11 +775,30 @@ impl<'a> UserModel<'a> {
         Ok(())
     }
 
+    /// Checks that the sheet exists and that the whole area lies inside the grid, so that the
+    /// loops over an area cannot fail half way and leave a partial edit behind.
+    fn validate_area(&self, range: &Area) -> Result<(), String> {
+        self.model.workbook.worksheet(range.sheet)?;
+        if range.width > 0 && range.height > 0 {
+            let last_row = range.row.checked_add(range.height - 1);
+            let last_column = range.column.checked_add(range.width - 1);
+            if !is_valid_row(range.row)
+                || !is_valid_column_number(range.column)
+                || !last_row.is_some_and(is_valid_row)
+                || !last_column.is_some_and(is_valid_column_number)
+            {
+                return Err("Incorrect row or column".to_string());
+            }
+        }
+        Ok(())
+    }
+
     /// Removes cells contents and style
     ///
     /// See also:
     /// * [Model::range_clear_all]
     pub fn range_clear_all(&mut self, range: &Area) -> Result<(), String> {
+        self.validate_area(range)?;
         let sheet = range.sheet;
         // TODO: full rows/columns
         let mut old_value = Vec::new();
@@ -826,6 +845,7 @@ impl<'a> UserModel<'a> {
     /// See also:
     /// * [Model::range_clear_contents]
     pub fn range_clear_contents(&mut self, range: &Area) -> Result<(), String> {
+        self.validate_area(range)?;
         let sheet = range.sheet;
         // TODO: full rows/columns
         let mut old_value = Vec::new();
@@ -1029,6 +1049,7 @@ impl<'a> UserModel<'a> {
     /// * [UserModel::range_clear_all]
     /// * [UserModel::range_clear_contents]
     pub fn range_clear_formatting(&mut self, range: &Area) -> Result<(), String> {
+        self.validate_area(range)?;
         let sheet = range.sheet;
         let mut diff_list = Vec::new();
         if range.row == 1 && range.height == LAST_ROW {
@@ -1703,18 +1724,7 @@ impl<'a> UserModel<'a> {
         let sheet = range.sheet;
         // Validate the range before touching any cell, so that a range that runs off the
         // grid does not leave a partial edit behind
-        self.model.workbook.worksheet(sheet)?;
-        if range.width > 0 && range.height > 0 {
-            let last_row = range.row.checked_add(range.height - 1);
-            let last_column = range.column.checked_add(range.width - 1);
-            if !is_valid_row(range.row)
-                || !is_valid_column_number(range.column)
-                || !last_row.is_some_and(is_valid_row)
-                || !last_column.is_some_and(is_valid_column_number)
-            {
-                return Err("Incorrect row or column".to_string());
-            }
-        }
+        self.validate_area(range)?;
         let mut diff_list = Vec::new();
         if range.row == 1 && range.height == LAST_ROW {
             // Full columns
